@@ -532,7 +532,13 @@ class SymInt:
             if o == 0:
                 return self
             if self.lo >= 0:
-                return mk(z3.LShR(self.e, o), self.lo >> o, self.hi >> o, self.pm >> o, self.ko >> o)
+                e = self.e
+                # peephole: (x >> a) >> b == x >> (a + b), keeps equal values syntactically equal
+                if z3.is_app_of(e, z3.Z3_OP_BLSHR) and z3.is_bv_value(e.arg(1)):
+                    a = e.arg(1).as_long()
+                    if a + o < e.size():
+                        return mk(z3.LShR(e.arg(0), a + o), self.lo >> o, self.hi >> o, self.pm >> o, self.ko >> o)
+                return mk(z3.LShR(e, o), self.lo >> o, self.hi >> o, self.pm >> o, self.ko >> o)
             return mk(self.e >> o, self.lo >> o, self.hi >> o)
         if o.lo < 0:
             if bool(o < 0):
@@ -1114,6 +1120,39 @@ class Context:
             raise PathAbort()
         return sorted(vals)
 
+    def enumerate_tuples(self, values, limit=2000, label="enumerate"):
+        """AllSAT over a tuple of symbolic ints under the current path condition: returns every feasible value
+        tuple (the final unsat answer proves the list complete).  More than `limit` -> Unsupported."""
+        es = [iexpr(v) for v in values]
+        s = z3.SolverFor("QF_BV") if self.logic == "QF_BV" else z3.Solver()
+        s.set("timeout", self.query_timeout_ms)
+        for cnd in self.path_cond():
+            s.add(cnd)
+        out = []
+        t0 = time.time()
+        while True:
+            r = s.check()
+            self.stats.queries += 1
+            if r == z3.unknown:
+                raise Inconclusive("solver unknown during enumeration")
+            if r == z3.unsat:
+                self.stats.verdicts["unsat"] += 1
+                break
+            self.stats.verdicts["sat"] += 0
+            m = s.model()
+            tup = tuple(m.eval(e, model_completion=True).as_signed_long() for e in es)
+            out.append((tup, self.model_inputs(m)))
+            if len(out) > limit:
+                raise Unsupported("more than %d tuples in enumeration" % limit)
+            s.add(z3.Or(*[e != bv(v) for e, v in zip(es, tup)]))
+        self.stats.query_time += time.time() - t0
+        ob = self.stats.ob(label)
+        ob["paths"] += 1
+        ob["nontrivial"] += 1
+        ob["unsat"] += 1
+        ob["enumerated"] = ob.get("enumerated", 0) + len(out)
+        return out
+
     def path_cond(self):
         out = []
         for fr in self.frames:
@@ -1371,6 +1410,7 @@ def explore(harness, params=None, width=DEFAULT_WIDTH, max_paths=200000, max_dec
     finally:
         _CTX = prev
     res.stats = c.stats
+    res.extra = getattr(c, "extra", None)
     res.counterexamples = c.counterexamples
     res.samples = c.samples
     res.inconclusive = c.stats.inconclusive
